@@ -10,4 +10,6 @@ func Register(m map[string]func(*Ctx)) {
 	m["C07"] = RunC07
 	m["C09"] = RunC09
 	m["C12"] = RunC12
+	m["C13"] = RunC13
+	m["C17"] = RunC17
 }
